@@ -20,6 +20,10 @@ CLAIMS = {
          "the inductive composition through the LCS walk is not proved (bounded only).", "8 C01"),
  "C15": ("other", "Frame obligations (no in-place write to storage reachable from a parameter unless listed in modifies/consumes) are generated for every store, map update, copy, delete and in-place external (slices.Reverse, sort) and discharged for every implementation of Equals, Diff/diff, hashCode, raw, Json, Yaml and for Render, RenderPatch, RenderMerge: on any call sequence the inputs are unchanged, which is the history part of the property turned into a per-call frame. Determinism (independence of map iteration order) and 'a diff still patches after being rendered' are evaluated by the wrappers verifPure / verifReadMergeDeterministic on bounded universes.",
          "determinism is bounded only (repeat-and-compare), except Equals whose result is proved equal to a function of its inputs; provenance labels are per root and per struct field.", "8 C15"),
+ "C04": ("other", "Equals of every list-mode implementation (string, number incl. Precision, bool, null, void, list, object, array dispatch) is proved, for all inputs, to return exactly specEq, an equivalence written from the property statement independently of hashing (deep structural equality, numbers within eps, arrays read per the first SET/SetKeys/MULTISET option); loop invariants cover the list and the map iteration (finite-set cardinality facts assumed). Set and multiset equality is decided by hash comparison: the interface clause is assumed for those two implementations and evaluated, together with reflexivity and symmetry, on all document pairs of a bounded universe that contains the type-confusable values. The string/number hash aliasing is reported as KNOWN-FINDING.",
+         "jsonSet/jsonMultiset Equals are bounded (assume_iface); the hash function itself is not modelled.", "8 C04"),
+ "C13": ("other", "Zero-annotation safety sweep: every function of package jd (v2) - readers of jd/patch/merge/JSON/YAML text, Patch, Diff, Render*, Equals, hash codes, helpers; 193 functions - is verified for every index, slice, make, type-assertion, nil-call/dereference, division and explicit-panic obligation, under validity preconditions (no nil interface inside documents/diffs) that the readers are proved to establish for arbitrary text (external decoders assumed not to panic and to return plain native values). Loop termination is proved where a decreases clause is given. The same contracts are evaluated on bounded universes as a sanity run.",
+         "dependencies (encoding/json, yaml.v2, jsonpointer, golcs, sort, strings, bytes, fnv) are assumed not to panic; json.Marshal is assumed not to fail on jd values; colour rendering (colorStringMarshal) is trusted; recursion termination is not proved; the CLI part of the property is covered under C14.", "8 C13"),
 }
 
 def main():
